@@ -154,7 +154,7 @@ int main(int argc, char** argv) {
   const char* salt = "";
   const char* ins[256]; int nin = 0;
   const char* outs[64]; int nout = 0;
-  const char* deps = NULL; const char* style = "makefile";
+  const char* deps = NULL; const char* style = "makefile"; const char* rsp = NULL;
   int restat = 0;
   for (int i = 2; i < argc; ++i) {
     if (!strcmp(argv[i], "--salt") && i + 1 < argc) salt = argv[++i];
@@ -163,6 +163,7 @@ int main(int argc, char** argv) {
     else if (!strcmp(argv[i], "--deps") && i + 1 < argc) deps = argv[++i];
     else if (!strcmp(argv[i], "--style") && i + 1 < argc) style = argv[++i];
     else if (!strcmp(argv[i], "--restat")) restat = 1;
+    else if (!strcmp(argv[i], "--rsp") && i + 1 < argc) rsp = argv[++i];   /* a response file the tool reads */
   }
   logline(id, "start");
   /* injected fault? */
@@ -195,6 +196,17 @@ int main(int argc, char** argv) {
   ndiscovered = nd;
   hbytes("I", 1);
   for (int i = 0; i < ndiscovered; ++i) hash_path(discovered[i], discovered[i], 0);
+  /* the response file is part of what the command reads */
+  if (rsp) {
+    hbytes("R", 1);
+    static char rbuf[65536];
+    size_t n = 0;
+    FILE* f = fopen(rsp, "rb");
+    if (f) { n = fread(rbuf, 1, sizeof rbuf - 1, f); fclose(f); }
+    else { fprintf(stderr, "vtool: cannot read response file %s\n", rsp); logline(id, "fail"); return 1; }
+    rbuf[n] = 0;
+    hstr(rbuf);
+  }
   /* deps file */
   if (deps) {
     FILE* f = fopen(deps, "wb");
